@@ -1084,7 +1084,7 @@ Qed.
 
 Lemma flag_sticky c l s : ds_flag s <> 0 -> ds_flag (dstep c l s) = ds_flag s.
 Proof.
-  intros H. destruct l as [i f|f| | |f|]; simpl.
+  intros H. destruct l as [i f|f| | |f| |]; simpl.
   - destruct (ds_mode s); auto. destruct (nth_error (ds_ws s) i) as [w|]; auto.
     destruct (dwstep c f (ds_d s) (ds_v s) w) as [[d' v'] w']. simpl. apply set_flag_sticky; exact H.
   - destruct (ds_mode s); auto.
@@ -1093,6 +1093,7 @@ Proof.
   - destruct (ds_mode s); auto.
   - destruct (ds_mode s); auto.
     destruct (drstep f (ds_d s) (ds_v s) (ds_rec s)) as [[d' v'] r]. destruct r; simpl; apply set_flag_sticky; exact H.
+  - destruct (ds_mode s); auto.
   - destruct (ds_mode s); auto.
 Qed.
 
@@ -1279,9 +1280,12 @@ Proof.
     destruct (db_items (v_buf v)); simpl in H; discriminate.
 Qed.
 
+Lemma wal_entries_rotated d : wal_entries (rotated d) = wal_entries d.
+Proof. unfold wal_entries, rotated; simpl. rewrite concat_app. simpl. rewrite !app_nil_r. reflexivity. Qed.
+
 Lemma inv_step c l s : inv s -> ds_flag (dstep c l s) = 0 -> inv (dstep c l s).
 Proof.
-  intros Iv Hf. destruct l as [i f|f| | |f|]; simpl in *.
+  intros Iv Hf. destruct l as [i f|f| | |f| |]; simpl in *.
   - (* DW *)
     destruct (ds_mode s) eqn:Em; try exact Iv.
     destruct (nth_error (ds_ws s) i) as [w|] eqn:En; try exact Iv.
@@ -1412,6 +1416,12 @@ Proof.
     + apply (go_down s); auto; [rewrite Em; discriminate|apply crash_w_idle|].
       intros e He. rewrite acked_is_flat. apply crash_w_acked. exact He.
     + apply (go_down s); auto; [rewrite Em; discriminate|apply crash_w_idle|].
+      intros e He. rewrite acked_is_flat. apply crash_w_acked. exact He.
+  - (* DCrashRot *)
+    destruct (ds_mode s) eqn:Em; try exact Iv.
+    + apply (go_down s); auto; [rewrite Em; discriminate|apply wal_entries_rotated|apply crash_w_idle|].
+      intros e He. rewrite acked_is_flat. apply crash_w_acked. exact He.
+    + apply (go_down s); auto; [rewrite Em; discriminate|apply wal_entries_rotated|apply crash_w_idle|].
       intros e He. rewrite acked_is_flat. apply crash_w_acked. exact He.
 Qed.
 
@@ -1591,13 +1601,14 @@ Qed.
 
 Lemma dmacro_is_run c fuel l s : exists ls, dmacro c fuel l s = drun c ls s.
 Proof.
-  destruct l as [i f|f| | |f|]; cbn [dmacro].
+  destruct l as [i f|f| | |f| |]; cbn [dmacro].
   - destruct (dsettle_w_is_run c fuel i (dstep c (DW i f) s)) as [ls H]. exists (DW i f :: ls). exact H.
   - destruct (dsettle_t_is_run c fuel (dstep c (DT f) s)) as [ls H]. exists (DT f :: ls). exact H.
   - destruct (dsettle_t_is_run c fuel (dstep c DTick s)) as [ls H]. exists (DTick :: ls). exact H.
   - destruct (dsettle_t_is_run c fuel (dstep c DShut s)) as [ls H]. exists (DShut :: ls). exact H.
   - destruct (dsettle_r_is_run c fuel (dstep c (DRec f) s)) as [ls H]. exists (DRec f :: ls). exact H.
   - exists [DCrash]. reflexivity.
+  - exists [DCrashRot]. reflexivity.
 Qed.
 
 Theorem dmacro_run_is_run : forall c fuel ms s,
